@@ -121,6 +121,13 @@ func routesFor(sc *Scn) []map[string]any {
 			"upstreams":      []map[string]any{{"dial": []string{"10.0.0.10:80"}}, {"dial": []string{"10.0.0.11:80"}}},
 			"load_balancing": map[string]any{"selection": map[string]any{"policy": sc.Policy}},
 			"health_checks":  map[string]any{"passive": map[string]any{"fail_duration": "1s", "max_fails": 2}}}}}}
+	case "subroute":
+		// every connection falls through the shared subroute handler (its only route wants a
+		// first byte 'S', the streams start with 's') and continues with the route after it
+		return []map[string]any{
+			{"handle": []map[string]any{{"handler": "subroute", "routes": []map[string]any{
+				{"match": []map[string]any{{"h_need": map[string]any{"k": 1, "pat": "S"}}}, "handle": []map[string]any{{"handler": "h_own"}}}}}}},
+			{"match": []map[string]any{{"h_need": map[string]any{"k": 3, "mode": "full"}}}, "handle": []map[string]any{{"handler": "h_own"}}}}
 	case "throttle":
 		return []map[string]any{{"handle": []map[string]any{{"handler": "throttle", "total_read_bytes_per_second": 1e9, "total_read_burst_size": 1 << 20, "read_bytes_per_second": 1e9, "read_burst_size": 1 << 20}, {"handler": "h_own"}}}}
 	case "tee":
@@ -344,7 +351,7 @@ func scenarios(tier string, yield0 func(any) bool) {
 		}
 		return yield0(sc)
 	}
-	for _, k := range []string{"server", "throttle", "tee", "listener"} {
+	for _, k := range []string{"server", "subroute", "throttle", "tee", "listener"} {
 		for _, n := range []int{2, 3} {
 			if n == 3 && tier != "thorough" && k != "server" {
 				continue
@@ -523,7 +530,7 @@ func main() {
 	runner.Main(&runner.Harness{
 		ID:    "C08",
 		Level: "model_checking",
-		Rule:  "2-3 concurrent connections with distinguishable streams through SHARED provisioned routes: Server.handle with a prefetching matcher, throttle with a total limiter, tee, the listener wrapper, the proxy with each of the 6 selection policies and shared peers, and every shipped matcher configuration (2 connections carrying that protocol's messages); deterministic LIFO buffer pool; every interleaving within the delay budget; " + mode,
+		Rule:  "2-3 concurrent connections with distinguishable streams through SHARED provisioned routes: Server.handle with a prefetching matcher, a subroute every connection falls through, throttle with a total limiter, tee, the listener wrapper, the proxy with each of the 6 selection policies and shared peers, and every shipped matcher configuration (2 connections carrying that protocol's messages); deterministic LIFO buffer pool; every interleaving within the delay budget; " + mode,
 		Assumptions: []string{
 			"sequential consistency for the cross-talk part; weak-memory effects are represented by the race detector's verdicts",
 			"race reports are attributed by the innermost non-runtime frame of both accesses; only pairs inside github.com/mholt/caddy-l4 count",
